@@ -25,6 +25,13 @@ HISTORIES = [
     ['select * from int1.t1 where a in (select a from int2.t2)', 'select * from int2.t2 where a in (select a from int1.t1)'],
     ['select * from INT1.t1 join Int2.t2 on t1.a = t2.a', 'select * from int1.t1 join int2.t2 on t1.a = t2.a'],
     ['insert into int1.t9 (a) select a from int2.t2', 'select a from int2.t2 union select a from int1.t1'],
+    # the same sub-select text in consecutive statements, at different positions of their plans
+    ['select * from int1.t1 as a join int2.t5 as b on a.a = b.a where a.b in (select c from int2.t2 where c > 1)',
+     'select * from int1.t3 where b in (select c from int2.t2 where c > 1)'],
+    ['select * from int1.t3 where b in (select c from int2.t2 where c > 1)',
+     'select * from int1.t1 where a = (select max(c) from int2.t2) and b in (select c from int2.t2 where c > 1)',
+     'select * from int1.t3 where b in (select c from int2.t2 where c > 1)'],
+    ['select * from int1.t1 where a = (select max(c) from int2.t2)', 'delete from int1.t1 where a = (select max(c) from int2.t2)'],
 ]
 
 
